@@ -40,6 +40,33 @@ pub fn csr_segment<Ty: EdgeType>(rng: &mut Rng, log: &mut Log, len: usize, hub: 
         let r = g.add_node(w);
         ev(log, json!({"op":"add_node","w":w}), ri(r as usize), g.node_count(), g.edge_count());
     }
+    if hub {
+        // grow the row of node 0 through the 32-entry cutoff in shuffled order; at every size from 28
+        // to 40 re-add every existing edge (must answer false and change nothing) and probe every target
+        let mut targets: Vec<usize> = (0..n0).collect();
+        rng.shuffle(&mut targets);
+        for (k, &t) in targets.iter().enumerate() {
+            let w = next();
+            let e = json!({"op":"add_edge","a":0,"b":t,"w":w});
+            log.about_to(&e);
+            let ret = pan(guard(|| rb(g.add_edge(0, t as u32, w))));
+            ev(log, e, ret, g.node_count(), g.edge_count());
+            if (28..=40).contains(&k) {
+                for &t2 in targets[..=k].iter() {
+                    let w = next();
+                    let e = json!({"op":"try_add_edge","a":0,"b":t2,"w":w});
+                    let ret = pan(guard(|| match g.try_add_edge(0, t2 as u32, w) { Ok(x) => json!(["ok_b", x]), Err(_) => json!(["err_s", "IndicesOutBounds"]) }));
+                    ev(log, e, ret, g.node_count(), g.edge_count());
+                }
+                let pairs: Vec<Value> = (0..n0).map(|b| json!({"a": 0, "b": b, "ce": rb(g.contains_edge(0, b as u32))})).collect();
+                log.ev(json!({"op":"obs","nc":g.node_count(),"ec":g.edge_count(),"directed":g.is_directed(),
+                    "nodes": g.node_references().map(|(i, w)| json!([i, *w])).collect::<Vec<_>>(),
+                    "edges": g.edge_references().map(|e| json!([e.source(), e.target(), *e.weight()])).collect::<Vec<_>>(),
+                    "per": [json!({"a": 0, "nbr": g.neighbors_slice(0).iter().map(|x| *x as usize).collect::<Vec<_>>(), "ews": g.edges_slice(0).to_vec(), "deg": g.out_degree(0)})],
+                    "pairs": pairs}));
+            }
+        }
+    }
     for step in 0..len {
         let n = g.node_count();
         let r = rng.below(100);
@@ -480,8 +507,8 @@ pub fn gen_c05(seed: u64, segments: usize, len: usize, log: &mut Log) {
             1 => csr_segment::<Undirected>(&mut rng, log, len, false),
             2 => list_segment(&mut rng, log, len),
             3 => csr_from_sorted(&mut rng, log),
-            4 => csr_segment::<Directed>(&mut rng, log, len + 60, true), // a hub row crossing the 32-entry cutoff
-            _ => csr_segment::<Undirected>(&mut rng, log, len + 60, true),
+            4 => csr_segment::<Directed>(&mut rng, log, len / 2, true), // a hub row crossing the 32-entry cutoff
+            _ => csr_segment::<Undirected>(&mut rng, log, len / 2, true),
         }
     }
 }
